@@ -940,6 +940,12 @@ class ServerTls(Server):
                                  cafilepath=self.cafilepath,
                                 )
 
+            # new connection from a peer address that still has an entry
+            # so the old connection is stale, shut it down as Server does
+            if ca in self.cxes and self.cxes[ca] is not incomer:
+                self.cxes[ca].shutdown()  # still handshaking, replaced below
+            if ca in self.ixes and self.ixes[ca] is not incomer:
+                self.shutdownIx(ca)  # replaced in serviceCxes once handshaked
             self.cxes[ca] = incomer
 
     def serviceCxes(self):
